@@ -140,6 +140,18 @@ Proof.
 Qed.
 Print Assumptions C02_huge_length_refuted.
 
+(* with the real allocator every decoder either behaves as its total version (allocator that never refuses) or
+   panics: the allocation of a declared length is the ONLY panic left in the models of the current code
+   ([refines r' r] := r' = r \/ r' = Panic) *)
+Theorem C02_only_allocation_panics :
+  (forall bs, refines (byron_from_bytes real_alloc false bs) (byron_from_bytes None false bs)) /\
+  (forall ign bs, refines (addr_from_bytes real_alloc false ign bs) (addr_from_bytes None false ign bs)) /\
+  (forall bs, refines (third_element real_alloc false bs) (third_element None false bs)) /\
+  (forall V (dv : bytes -> result (V * bytes)) bs, refines (legacy_output real_alloc dv false bs) (legacy_output None dv false bs)) /\
+  (forall bs, refines (read_bounded_bytes real_alloc bs) (read_bounded_bytes None bs)).
+Proof. exact real_alloc_only_adds_panics. Qed.
+Print Assumptions C02_only_allocation_panics.
+
 (* with the real allocator, reading a byte string panics exactly when the declared length exceeds the limit *)
 Theorem C02_alloc_only_panic : forall lim bs,
   ce_bytes (Some lim) bs = Panic <-> exists m n r, decode_head bs = Some (m, Arg n, r) /\ m = 2%N /\ (lim < n)%N.
